@@ -49,6 +49,9 @@ def build_tree(
         return StringNode(python_obj)
     elif isinstance(python_obj, bytes):
         return StringNode(python_obj.decode('utf-8'))
+    elif python_obj is None:
+        # a null is a leaf, too: it is a legal mapping key in YAML (`~: 1`)
+        return NullNode()
     elif force_leaf_node:
         raise ValueError(f"{python_obj!r} was expected to be an int or string, but was instead a {type(python_obj)}")
     elif isinstance(python_obj, list) or isinstance(python_obj, tuple):
@@ -70,8 +73,6 @@ def build_tree(
             return dict_node
         else:
             return FixedKeyDictNode.from_dict(dict_items)
-    elif python_obj is None:
-        return NullNode()
     else:
         raise ValueError(f"Unsupported Python object {python_obj!r} of type {type(python_obj)}")
 
